@@ -2,7 +2,7 @@
 import warnings
 from fractions import Fraction
 
-from harness.common.wire import exc_enum
+from harness.common.wire import exc_enum, enc_f, u2f
 from harness.common.watchdog import time_limit, Timeout
 
 ID = "C05"
@@ -12,28 +12,39 @@ MANIFEST = {
             "every slot for every bit list and every sps (odd included); SAMPLER returns samples k, k+sps, ...; sampling at any "
             "k<sps (NRZ) / k<sps//2 (RZ) and the nearer-level decision return the input bits for every Vout != 0; the validation "
             "ladder (types, 48 V, 0<T<=2*sps, m>=1, pulse-shape names, exception classes - all translated from devices.py on "
-            "every run) equals the documented accept/TypeError/ValueError table.  Tie: translator + exact differential run of "
-            "the compiled model against DAC()/SAMPLER() over all container forms of the bits, sps 1..128, dyadic and decimal "
-            "levels, every value kind of Vout/bias/c/m/T.  Gaussian pulse clauses are checked by the oracle only.",
+            "every run) equals the documented accept/TypeError/ValueError table.  Gaussian branch (generic model executed at "
+            "Float, proved at R; constants and the formula of k translated from the source): |p(0)| = 1, |p(+-T/2)| = 1/2 for "
+            "every m >= 1 and T > 0 (amplitude FWHM of the prototype is exactly T), p even, |p| strictly decreasing in |t|, "
+            "chirp leaves |p| unchanged, impulse train positions/values for every bit list and sps >= 2, fftconvolve 'same' = "
+            "direct sum, superposition (waveform = sum of shifted single-bit waveforms), len*sps samples.  Tie: translator + "
+            "exact differential run of the compiled model against DAC()/SAMPLER() over all container forms of the bits, sps "
+            "1..128, dyadic and decimal levels, every value kind of Vout/bias/c/m/T; for the Gaussian branch sg.fftconvolve "
+            "is spied inside DAC and s (exactly), pulse and x (1e-9) are compared with the Float model.",
     "note": "Trusted: Lean kernel, translator tools/extractors/daclimits.py (if-ladder, isinstance tuples, comparisons, kwargs "
             "defaults, rz duty), harness; numpy kron/tile/slicing semantics (modelled).  binary_sequence() parsing of the input "
-            "forms belongs to C15 (the model takes the bit list).  Partial: Gaussian peak position / height / FWHM and the "
-            "Gaussian DAC->SAMPLER round trip are numerical oracle checks, not theorems.  Axioms: propext, Classical.choice, "
+            "forms belongs to C15 (the model takes the bit list).  Partial: the DISCRETISED Gaussian clauses (sampled peak position, "
+            "5 % height, +-1-sample width, Gaussian round trip) are numerical oracle checks; proved is the continuous prototype "
+            "and the linear structure.  Proofs over R say nothing about float rounding / FFT vs direct sum (tolerance 1e-9).  Axioms: propext, Classical.choice, "
             "Quot.sound.",
     "technique": "Lean 4 proof (induction over the bit list, algebra over Rat) on a model whose constants are regenerated from "
                  "source; exact differential correspondence run; numerical oracle for the Gaussian clauses",
     "design": "§5 C05",
 }
-GEN = ["DacLimits"]
+GEN = ["DacLimits", "DacGauss"]
 RULE = ("cases = (container form of the bits, bit pattern, sps in 1..128 incl. odd/prime/2^k, shape name, Vout/bias kind and value "
         "incl. None/bool/int/float/np.float64 and boundary values around 48, sampling instants) + validation cells over every "
         "value kind of Vout/bias/c/m/T/pulse_shape + raw SAMPLER cases with noise + Gaussian grid; non-trivial = accepted "
         "waveform with >= 2 bits containing both levels, distinct by (shape, sps, bits, Vout, bias)")
 PARTIAL = [
-    "Gaussian pulse: peak within one sample of the slot centre, peak within 5% of Vout, half-maximum width within one sample "
-    "of T (sps>=8, sps/2<=T<=2*sps, m in 1..4) — numerical oracle on the real code only (no Lean model of fftconvolve)",
-    "Gaussian DAC->SAMPLER(k=sps//2)->decision returns the bits — oracle only, checked for T<=sps (for larger T adjacent pulses "
-    "overlap by construction) and for isolated ones",
+    "Gaussian pulse, discretisation: PROVED are the continuous prototype (|p(0)|=1, |p(+-T/2)|=1/2, even, strictly decreasing, "
+    "chirp-independent modulus), the impulse train, the direct-sum form of the 'same' convolution and the superposition law.  "
+    "NOT proved (numerical oracle on the real code, sps>=8, sps/2<=T<=2*sps, m in 1..4): that the SAMPLED waveform - prototype "
+    "sampled on linspace(-4*sps, 4*sps, 8*sps) (spacing 8*sps/(8*sps-1), not 1), averaged over two impulses one sample apart, "
+    "truncated at +-4*sps - has its peak within one sample of the slot centre, within 5 % of Vout, and a half-maximum width "
+    "within one sample of T",
+    "Gaussian DAC->SAMPLER(k=sps//2)->decision returns the bits - oracle only, checked for T<=sps (for larger T adjacent pulses "
+    "overlap by construction; superposition theorem explains it) and for isolated ones",
+    "float arithmetic of the Gaussian branch (libm exp/log, FFT-based convolution vs direct sum): correspondence at 1e-9*scale*N",
     "conversion of str/list/tuple/ndarray/binary_sequence inputs to a bit list is C15's model; here the oracle checks that all "
     "forms give the same waveform",
 ]
@@ -289,6 +300,9 @@ def gen_cases(rng, tier):
                 bias = rng.choice([0.0, 0.5, -1, 12.25])
                 cases.append({"kind": "gauss", "sps": sps, "T": T, "m": m, "bits": [0, 0, 0, 1, 0, 0, 0], "vout": vout,
                               "bias": bias})
+                if rng.random() < 0.35:     # chirped pulse, arbitrary pattern: correspondence of the complex waveform only
+                    cases.append({"kind": "gauss", "sps": sps, "T": T, "m": m, "bits": _bits(rng, rng.randrange(1, 9)),
+                                  "vout": vout, "bias": bias, "c": rng.choice([1.5, -2.0, 1, 0.25])})
         # default T (= sps), arbitrary pattern: round trip at k = sps//2
         for _ in range(2 if quick else 10):
             cases.append({"kind": "gauss", "sps": sps, "T": None, "m": rng.randrange(1, 5),
@@ -330,11 +344,41 @@ def run_impl(case):
             kw = {"m": case["m"]}
             if case["T"] is not None:
                 kw["T"] = case["T"]
-            with time_limit(20):
-                y = DAC(case["bits"], Vout=case["vout"], bias=case["bias"], pulse_shape="gaussian", **kw)
+            if case.get("c") is not None:
+                kw["c"] = case["c"]
+            # spy `sg.fftconvolve` as seen from opticomlib.devices (library call = input of the model, DESIGN §2.2)
+            import opticomlib.devices as dev
+            real_sg = dev.sg
+            seen = []
+
+            class _Sg:
+                def __getattr__(self, name):
+                    if name != "fftconvolve":
+                        return getattr(real_sg, name)
+
+                    def spy(a, b, *args, **kwargs):
+                        out = real_sg.fftconvolve(a, b, *args, **kwargs)
+                        seen.append((np.array(a, copy=True), np.array(b, copy=True), kwargs.get("mode", args[0] if args else "full"),
+                                     np.array(out, copy=True)))
+                        return out
+                    return spy
+            dev.sg = _Sg()
+            try:
+                with time_limit(20):
+                    y = DAC(case["bits"], Vout=case["vout"], bias=case["bias"], pulse_shape="gaussian", **kw)
+            finally:
+                dev.sg = real_sg
             sig = np.asarray(y.signal)
             res.update(status="ok", cls=type(y).__name__, n=int(sig.size), imag=float(np.max(np.abs(sig.imag))),
-                       real=[float(v) for v in sig.real], noise_none=y.noise is None)
+                       real=[float(v) for v in sig.real], imags=[float(v) for v in sig.imag], noise_none=y.noise is None)
+            res["spied"] = len(seen)
+            if len(seen) == 1:
+                a, b, mode, out = seen[0]
+                b = np.asarray(b, dtype=complex)
+                out = np.asarray(out, dtype=complex)
+                res.update(conv_mode=str(mode), s=[float(v) for v in np.asarray(a).real], s_dtype=str(np.asarray(a).dtype),
+                           pulse_re=[float(v) for v in b.real], pulse_im=[float(v) for v in b.imag],
+                           conv_re=[float(v) for v in out.real], conv_im=[float(v) for v in out.imag])
             with time_limit(20):
                 s = SAMPLER(y, case["sps"] // 2)
             res["sampled"] = [float(v) for v in np.asarray(s.signal).real]
@@ -411,7 +455,12 @@ def model_requests(case, res):
         r += "0" if case["noise"] is None else "1 " + _rats(case["noise"])
         return [r]
     if case["kind"] == "gauss":
-        return []
+        if res.get("status") != "ok" or case["sps"] < 2:
+            return []
+        T = case["sps"] if case["T"] is None else case["T"]
+        c = 0.0 if case.get("c") is None else float(case["c"])
+        return [f"dacg.run {case['sps']} {case['m']} {T} {enc_f(c)} {enc_f(float(case['vout']))} {enc_f(float(case['bias']))} "
+                + " ".join([str(len(case['bits']))] + [str(b) for b in case['bits']])]
     r = _run_request(case)
     if r is None:
         return []
@@ -440,6 +489,52 @@ def _eq_exact(model_vals, impl_vals):
     return None
 
 
+def _flist(toks, i):
+    n = int(toks[i])
+    return [u2f(int(t)) for t in toks[i + 1:i + 1 + n]], i + 1 + n
+
+
+def _clist(toks, i):
+    n = int(toks[i])
+    v = [u2f(int(t)) for t in toks[i + 1:i + 1 + 2 * n]]
+    return [complex(v[2 * j], v[2 * j + 1]) for j in range(n)], i + 1 + 2 * n
+
+
+def _compare_gauss(case, res, rep):
+    """Float model of the Gaussian branch against what the code handed to / got from fftconvolve and returned"""
+    out = []
+    if not rep.startswith("ok "):
+        return [f"gaussian: model {rep[:80]!r}, implementation ok"]
+    if res.get("spied") != 1 or res.get("conv_mode") != "same":
+        return [f"gaussian: fftconvolve called {res.get('spied')} times with mode {res.get('conv_mode')!r} (model: once, 'same')"]
+    parts = [q.split() for q in rep[3:].split("|")]
+    ms, _ = _flist(parts[0], 0)
+    mp, _ = _clist(parts[1], 0)
+    mx, _ = _clist(parts[2], 0)
+    if ms != res["s"]:
+        k = next((i for i, (a, b) in enumerate(zip(ms, res["s"])) if a != b), None)
+        out.append(f"impulse train: model/implementation differ (lengths {len(ms)}/{len(res['s'])}, first at {k})")
+    ip = [complex(a, b) for a, b in zip(res["pulse_re"], res["pulse_im"])]
+    if len(mp) != len(ip):
+        out.append(f"pulse: {len(mp)} model samples, {len(ip)} implementation samples")
+    else:
+        for i, (a, b) in enumerate(zip(mp, ip)):
+            if abs(a - b) > 1e-9:
+                out.append(f"pulse[{i}]: model {a!r}, implementation {b!r}")
+                break
+    ix = [complex(a, b) for a, b in zip(res["real"], res["imags"])]
+    scale = max(1.0, abs(float(case["vout"])), abs(float(case["bias"])))
+    if len(mx) != len(ix):
+        out.append(f"x: {len(mx)} model samples, {len(ix)} implementation samples")
+    else:
+        tol = 1e-9 * scale * max(len(ix), 1)
+        for i, (a, b) in enumerate(zip(mx, ix)):
+            if abs(a - b) > tol:
+                out.append(f"x[{i}]: model {a!r}, implementation {b!r} (direct convolution vs fftconvolve, tol {tol:.1e})")
+                break
+    return out
+
+
 def compare(case, res, reqs, replies):
     out = []
     if not reqs:
@@ -466,6 +561,8 @@ def compare(case, res, reqs, replies):
             if d:
                 out.append("SAMPLER noise " + d)
         return out
+    if case["kind"] == "gauss":
+        return _compare_gauss(case, res, replies[0])
     # wave / validate
     rep = replies[0]
     if res["status"] == "err":
@@ -613,6 +710,8 @@ def oracle(case, res):
         if res["n"] != len(bits) * sps:
             v.append(("C05:gauss-len", f"{res['n']} samples, required {len(bits) * sps}"))
             return v
+        if case.get("c") not in (None, 0, 0.0):
+            return v            # chirped pulse: only the length is demanded here (the waveform is tied to the model by `compare`)
         if res["imag"] > 1e-9 * max(1.0, abs(vout)):
             v.append(("C05:gauss-imag", f"chirp-free pulse has imaginary part {res['imag']}"))
         y = [(x - bias) / vout for x in res["real"]]
@@ -713,6 +812,7 @@ def features(case, res):
         k = case["k"]
         f.append("k=" + ("neg" if k < 0 else "in-slot" if k < sps else "beyond-slot" if k < len(case["sig"]) else "beyond-end"))
     if case["kind"] == "gauss":
+        f.append("chirp=" + ("0" if case.get("c") in (None, 0, 0.0) else "nonzero"))
         f.append(f"m={case['m']}")
         f.append("T=" + ("default" if case["T"] is None else "min" if case["T"] <= (sps + 1) // 2 else "max" if case["T"] == 2 * sps else "mid"))
     return f
